@@ -1,0 +1,120 @@
+//! Verification hooks (cargo feature `verif_hooks`, off by default).
+//!
+//! Nothing in here changes what the library computes.  With the feature on,
+//! the crate records a few facts about an execution in thread-local state so
+//! that an external monitor can classify the execution, and decrements a
+//! "fuel" counter at loop heads so that a non-terminating loop turns into a
+//! deterministic panic instead of a hang.
+#![allow(missing_docs)]
+
+use std::cell::{Cell, RefCell};
+
+/// A fact recorded about the current execution.
+#[derive(Debug, Clone, PartialEq, Eq)]
+pub enum Event {
+    /// Column allocation of one table has been decided.
+    TableLayout {
+        vertical: bool,
+        avail: usize,
+        col_widths: Vec<usize>,
+        col_min: Vec<usize>,
+        col_size: Vec<usize>,
+    },
+    /// `width_minus` was evaluated.
+    WidthMinus {
+        avail: usize,
+        prefix: usize,
+        min: usize,
+        result: Option<usize>,
+        overflowed: bool,
+    },
+    /// A word was split by the hard-wrap path.
+    HardWrap,
+    /// A preformatted line was continued on a new line.
+    PreWrap,
+    /// A line was emitted by the wrapper (limit, width).
+    LineFlushed { limit: usize, width: usize },
+    /// A sub-renderer was pushed (annotation stack depth).
+    SubPush { ann_depth: usize },
+    /// A sub-renderer was popped (annotation stack depth).
+    SubPop { ann_depth: usize },
+    /// A link was started; n = number of links so far.
+    LinkStart { n: usize },
+    /// A footnote reference was emitted.
+    LinkRef { n: usize },
+    /// A cached size estimate was reused.
+    EstimateHit,
+    /// A size estimate had to be computed.
+    EstimateMiss,
+    /// An element was dropped because of `display: none`.
+    Hidden,
+}
+
+thread_local! {
+    static FUEL: Cell<u64> = const { Cell::new(u64::MAX) };
+    static TICKS: Cell<u64> = const { Cell::new(0) };
+    static RECORDING: Cell<bool> = const { Cell::new(false) };
+    static EVENTS: RefCell<Vec<Event>> = const { RefCell::new(Vec::new()) };
+}
+
+/// Maximum number of events kept per recording (later ones are counted only).
+const MAX_EVENTS: usize = 100_000;
+
+/// Set the fuel available to the current thread.
+pub fn set_fuel(n: u64) {
+    FUEL.with(|f| f.set(n));
+    TICKS.with(|t| t.set(0));
+}
+
+/// Number of ticks since the last `set_fuel`.
+pub fn ticks() -> u64 {
+    TICKS.with(|t| t.get())
+}
+
+/// Called at loop heads.  Panics with a recognisable payload once the fuel
+/// set by `set_fuel` has been used up.
+#[inline]
+pub fn tick(site: &'static str) {
+    TICKS.with(|t| t.set(t.get().wrapping_add(1)));
+    FUEL.with(|f| {
+        let v = f.get();
+        if v == 0 {
+            // Refill so that unwinding code which also ticks does not
+            // panic again while panicking.
+            f.set(u64::MAX);
+            panic!("VERIF_FUEL site={}", site);
+        }
+        f.set(v - 1);
+    });
+}
+
+/// Start recording events on this thread (clears earlier ones).
+pub fn start_recording() {
+    EVENTS.with(|e| e.borrow_mut().clear());
+    RECORDING.with(|r| r.set(true));
+}
+
+/// Stop recording and return the events seen.
+pub fn take_events() -> Vec<Event> {
+    RECORDING.with(|r| r.set(false));
+    EVENTS.with(|e| std::mem::take(&mut *e.borrow_mut()))
+}
+
+/// Record an event if recording is on.
+#[inline]
+pub fn emit(ev: Event) {
+    if RECORDING.with(|r| r.get()) {
+        EVENTS.with(|e| {
+            let mut e = e.borrow_mut();
+            if e.len() < MAX_EVENTS {
+                e.push(ev);
+            }
+        });
+    }
+}
+
+/// True if events are being recorded (lets call sites skip building them).
+#[inline]
+pub fn recording() -> bool {
+    RECORDING.with(|r| r.get())
+}
